@@ -42,6 +42,11 @@ char* strncpy(char* d, const char* s, size_t n) {
   return d;
 }
 char* strcpy(char* d, const char* s) { size_t i = 0; for (; s[i]; i++) d[i] = s[i]; d[i] = 0; return d; }
+int bcmp(const void* a, const void* b, size_t n) {
+  const unsigned char* x = (const unsigned char*) a; const unsigned char* y = (const unsigned char*) b;
+  for (size_t i = 0; i < n; i++) if (x[i] != y[i]) return 1;
+  return 0;
+}
 int memcmp(const void* a, const void* b, size_t n) {
   const unsigned char* x = (const unsigned char*) a; const unsigned char* y = (const unsigned char*) b;
   for (size_t i = 0; i < n; i++) if (x[i] != y[i]) return (int) x[i] - (int) y[i];
